@@ -62,12 +62,14 @@ def run_registry(acc, srv, key, n_pairs, tier):
         a0, a1 = rng.sample(A, 2)
         if frozenset([a0, a1]) in rw.model:
             continue
-        resp, rec = rw.create(a0, a1, None, [], (0, 0))
+        # requirement whitelists are stored as given (any strings): they must not matter for listing
+        wl = rng.choice([[], [], ["owner"], ["lp1", "lp2"], ["LP1"], ["ab"], ["AURA1UH24G2LC8HVVKAAF7AWZ25LRH5FPTTHU2DHQ0N"], ["owner", "Xy"]])
+        resp, rec = rw.create(a0, a1, None, wl, (0, 0))
         if resp["r"] == "ok":
             rw.model[frozenset([a0, a1])] = rec
             rw.order.append(frozenset([a0, a1]))
     created = list(rw.model)
-    limits = [None] + list(range(1, 41))
+    limits = [None] + list(range(1, 41)) + [64, 255, 256, 257, 512, 1025, 65536, 1 << 31, (1 << 32) - 1]   # any page size
     for limit in limits:
         for flip in (False, True):
             pages, prob = walk(rw, limit, flip)
@@ -84,7 +86,7 @@ def run_registry(acc, srv, key, n_pairs, tier):
                 acc.sample(case)
     # the cap holds for ANY limit value, also ones that are not page sizes of a walk (0, huge)
     cursors = [None] + [list(rw.model[k]["assets"]) for k in rng.sample(created, min(2, len(created)))]
-    for lim in (0, 31, 64, 255, 256, 65536, (1 << 31) - 1, (1 << 32) - 1):
+    for lim in (0, 31, 64, 255, 256, 65536, (1 << 31) - 1, (1 << 32) - 1):  # (0 is not a page size: only the cap is checked for it)
         for cur in cursors:
             r = rw.pairs_page(cur, lim)
             acc.ev()
@@ -115,7 +117,7 @@ def run_shard(acc, prop, tier, seed, shard, nshards, **kw):
     srv = Server()
     try:
         sizes = [0, 1, 9, 10, 11, 29, 30, 31, 40] if tier == "quick" else list(range(0, 41))
-        n = 5 if tier == "quick" else 60
+        n = 5 if tier == "quick" else 400
         for wi in range(n):
             from .. import core as _core
             if _core.skip_world(wi):
